@@ -237,6 +237,18 @@ def finish(prop, tier, seed, spec, lines, dones, det, harness_errors, wall, nw):
             n_nontrivial += 1
             sigs.add(ln["sig"])
     faultfree = sum(1 for ln in runs if not any(ln.get("fired", {}).values()))
+    groups = [ln for ln in runs if "sched_sig" in ln]
+    concurrency = None
+    if groups:
+        concurrency = {
+            "groups_of_concurrent_callers": len(groups),
+            "callers": sum(ln["callers"] for ln in groups),
+            "yield_points_offered": sum(ln["yields"] for ln in groups),
+            "context_switches_taken": sum(ln["switches"] for ln in groups),
+            "distinct_interleavings": len({ln["sched_sig"] for ln in groups}),
+            "measure": "an interleaving is the explicit list of (global yield-point number, thread that received the baton); "
+                       "distinct = distinct lists over all groups",
+        }
     samples = []
     for d in dones:
         for s in d.get("samples", []):
@@ -269,6 +281,7 @@ def finish(prop, tier, seed, spec, lines, dones, det, harness_errors, wall, nw):
         violations=len(unknown),
         known_hits={k: len(v) for k, v in known_hits.items()},
         harness_errors=harness_errors,
+        concurrency=concurrency,
     )
     if not os.environ.get("VERIF_NO_EVIDENCE"):
         evidence.write(prop, ev)
